@@ -548,6 +548,23 @@ CHECKS['C11'] = {
     'level_note': 'Trusted: libquadmath. Not covered: double arguments between lattice points; mixed switch configurations.',
 }
 
+
+def c20_jobs(tier):
+    return [{'name': 'abi-%s' % w, 'build_name': 'abi-%s' % w, 'script': 'abi/check.py', 'harness': [], 'args': ['--width', w, '--tier', tier], 'timeout': 900} for w in ('f64', 'f32')]
+
+
+CHECKS['C20'] = {
+    'title': 'the Rust binding mirrors the C ABI', 'level': 'translation_validation', 'engine': 'abi', 'jobs': c20_jobs,
+    'rule': ('complete enumeration of the declaration space of src/lib.rs for both real widths (f64, and f32 = --cfg feature="float" with -DA_SIZE_REAL=4): EVERY #[repr(C)] struct (18), every field (89), every item of every extern "C" block (121 functions, 4 statics). '
+             'A "program" is one declaration. Rust truth = rustc compiling lib.rs plus a generated main that prints size_of, align_of, offset_of! and field sizes; C truth = clang record layouts / JSON AST of a translation unit including every include/a/*.h, and generated C accessors compiled against those headers. '
+             'Per struct: size, alignment, field count. Per field (positional correspondence): offset, size, machine-type class (integer width and signedness, float width, data pointer, function pointer, array length x element, nested struct), and two cross-boundary executions: Rust writes a field-unique byte pattern where it believes the field lives and a C accessor reads the field through the header definition, and the converse. '
+             'Per function / static: declared by a header, defined by the library built from the working tree (nm), same arity, same parameter classes in order, same return class (function-pointer returns included). The crc structs are not mirrors of a C record: their table type is checked against the array parameter of a_crcN*_init. disagreements_checked = disagreements found and reported.'),
+    'assumptions': ['lib.rs items are parsed by a scanner that aborts on anything it cannot parse (no item is skipped silently)', 'char[N] and [u8; N] are the same machine type (byte buffer); a pure field rename (alpha vs alpha_) is reported as a sample, not as a violation', 'x86-64 SysV ABI only'],
+    'design_ref': '§4.C20', 'technique': 'complete enumeration of the binding\'s declaration space with one compiler-executed layout/prototype comparison and two cross-boundary executions per field',
+    'level_text': 'Every mirrored structure, field and foreign declaration of the binding is compared with the layout and prototypes the C compiler derives from the current headers, for both real widths, and every field is additionally written on one side of the boundary and read on the other by executed code.',
+    'level_note': 'Trusted: rustc offset_of!/size_of, clang AST, the lib.rs scanner. Not covered: semantic agreement of function bodies; other target ABIs.',
+}
+
 # ---------------------------------------------------------------- manifest texts
 CHECKS['C01'].update({
     'design_ref': '§4.C01', 'technique': 'explicit-state BFS to a fixpoint over the real src/avl.c (size-bounded, unbounded history length), lock-step reference set, API-replay conformance of every state',
@@ -590,6 +607,7 @@ def manifest():
                   'baseline_off_cmd': 'cmake --build /repo/_build && ctest --test-dir /repo/_build -j8 --timeout 900', 'source_commits': [], 'add_only': True},
         'engines': [
             {'name': 'xs', 'path': 'engine/xs.hpp', 'serves_properties': [p for p in sorted(CHECKS) if CHECKS[p].get('engine', 'xs') == 'xs'], 'kind_free_text': 'explicit-state breadth-first explorer over the real implementation with reference model, API-replay conformance and crash containment'},
+            {'name': 'abi', 'path': 'abi/check.py', 'serves_properties': [p for p in sorted(CHECKS) if CHECKS[p].get('engine') == 'abi'], 'kind_free_text': 'declaration-space enumeration for the Rust binding: rustc layout probe vs clang record layouts, cross-boundary executions'},
             {'name': 'grid', 'path': 'engine/grid.hpp', 'serves_properties': [p for p in sorted(CHECKS) if CHECKS[p].get('engine') == 'grid'], 'kind_free_text': 'bounded-exhaustive enumeration of finite input domains against exact reference models'},
         ],
         'checks': checks,
